@@ -88,8 +88,16 @@ impl Visit for NoFallthroughVisitor<'_, '_> {
       // Handle return / throw / break / continue
       for (idx, stmt) in case.cons.iter().enumerate() {
         let last = idx + 1 == case.cons.len();
-        let metadata = self.context.control_flow().meta(stmt.start());
-        stops_exec |= metadata.map(|v| v.stops_execution()).unwrap_or(false);
+        // A declaration or an expression statement never stops execution. Their
+        // metadata is not consulted: a function often starts at the very
+        // position of the statement containing it (`function f() {}`,
+        // `() => {};`), and the control flow metadata, which is keyed by
+        // position, then describes how that function's body ends.
+        if !matches!(stmt, Stmt::Decl(_) | Stmt::Expr(_)) {
+          let metadata = self.context.control_flow().meta(stmt.start());
+          stops_exec |=
+            metadata.map(|v| v.stops_execution()).unwrap_or(false);
+        }
         if stops_exec {
           should_emit_err = false;
         }
